@@ -29,6 +29,7 @@ BUDGET_S = {"quick": 40, "thorough": 600}
 MIN_EVALS = {"quick": 40, "thorough": 1200}
 FLOORS = {"stream_commit_checked": 200, "import_commit_checked": 150, "roundtrip": 40, "rev_parents": 200, "rev_tree": 200, "rev_meta": 200, "merge_revs": 20, "tags_compared": 15,
           "delta_renamed": 40, "delta_removed": 40, "symlink_entries": 40, "exec_entries": 40, "plain": 15, "rich": 15}
+SHARDS = {"quick": 6}  # every worker pays the same start-up (imports are compiled per process); fewer, longer shards
 EXHAUSTIVE = {"quick": False, "thorough": False}
 ASSUMPTIONS = [
     "no empty directories in any committed tree (the generator fills or removes them before every commit): the plain stream cannot "
@@ -519,84 +520,71 @@ def _roundtrip(ctx, rng, h, bname, plain, rewrite_tags):
             snaps[r] = observe.snap_tree(repo.revision_tree(r))
         return snaps[r]
 
-    # ---- exporter's duty: every commit's file commands, applied to the source tree of its 'from' parent with the documented
-    #      fast-import semantics, must yield the source tree of the revision; parent marks must mirror the parent ids
-    export_ok = True
-    rejected_marks = set()  # commits whose commands git itself would reject: an importer error there is not judged
-    roles_by_mark = {}
+    # ---- attribution aid 1 (never a verdict by itself): per commit, do the file commands - read with git-fast-import's documented
+    #      sequential semantics and applied to the source tree of the 'from' parent - yield the source tree of the revision?
+    e_problem = {}  # mark -> (family key, message, detail)
+    roles_by_mark, cmds_by_mark = {}, {}
     try:
         commits, resets = sm.parse_commits(data)
     except Exception as e:
         ctx.fail("export:stream:unparseable:%s" % type(e).__name__, "python-fastimport cannot parse the exporter's stream: %r" % (e,), detail)
         ctx.note(("export-unparseable", mode), nontrivial=False)
         return
+    ok = True
     with repo.lock_read():
         for mark, frm, merges, fcs, cmd in commits:
             r = mark_to_src.get(mark)
             if r is None:
-                export_ok = False
+                ok = False
                 ctx.fail("export:stream:commit-with-unknown-mark", "commit mark %r is not in the exporter's own mark table" % mark, detail)
                 continue
             rev = repo.get_revision(r)
-            rd = dict(detail, revision=r.decode(), mark=mark.decode(),
-                      commands=[bytes(fc)[:80].decode("latin-1") for fc in fcs if fc.name != b"filemodify" or True][:25])
+            cmds_by_mark[mark] = [bytes(fc)[:80].decode("latin-1") for fc in fcs][:25]
+            roles_by_mark[mark] = _cmd_roles(fcs)
             ctx.count("stream_commit_checked")
-            want_from = revid_to_mark.get(rev.parent_ids[0]) if rev.parent_ids else None
-            want_merges = [revid_to_mark.get(x) for x in rev.parent_ids[1:]]
-            if frm != want_from or merges != want_merges:
-                export_ok = False
-                ctx.fail("export:stream:parents" + (":order" if sorted([frm] + merges, key=repr) == sorted([want_from] + want_merges, key=repr) else ""),
-                         "commit %s: from %r merges %r, source parents are marks %r %r" % (mark, frm, merges, want_from, want_merges), rd)
             base = observe.strip_ids(src_snap(mark_to_src[frm])) if frm and frm in mark_to_src else {}
             model, notes = sm.apply_commands(base, fcs)
-            roles_by_mark[mark] = _cmd_roles(fcs)
             for what in sorted({n[0] for n in notes}):
                 ctx.hist("stream-note:%s" % what)
-            fatal = sorted({n[0] for n in notes if n[0] in ("rename-of-missing-path", "copy-of-missing-path", "unknown-file-command")})
             pa = src_snap(rev.parent_ids[0]) if rev.parent_ids else {}
             d = Delta(pa, src_snap(r))
-            if fatal:
-                export_ok = False
-                rejected_marks.add(mark)
-                for what in fatal:
-                    ps = [n[1] for n in notes if n[0] == what]
-                    ctx.fail("export:stream:%s" % what,
-                             "commit %s: %s %r - git fast-import would reject this stream (revision did: %s)" % (mark.decode(), what, ps[:4], d.classes[:8]),
-                             dict(rd, delta=d.classes[:30]))
             want = sm.prune_empty_dirs(observe.strip_ids(src_snap(r)))
             diffs = _diff_maps(want, sm.prune_empty_dirs(model))
+            fatal = sorted({n[0] for n in notes if n[0] in ("rename-of-missing-path", "copy-of-missing-path", "unknown-file-command")})
             if diffs:
-                export_ok = False
-                groups = {}
-                for sym, p in diffs:
-                    groups.setdefault((_cls_of(d, p), sym), []).append(p)
-                fams = {}
-                for (cls, sym), ps in sorted(groups.items()):
-                    fams.setdefault(_export_family(plain, d, cls, sym, ps[0]), []).append((cls, sym, ps))
-                for fam, items in sorted(fams.items()):
-                    cls, sym, ps = items[0]
-                    ctx.fail("export:stream:%s" % fam,
-                             "commit %s (%s): applying its file commands to the parent's tree gives path(s) %r %s w.r.t. the revision's tree "
-                             "(what the revision did to the path: %s)" % (mark.decode(), r.decode(), ps[:4], sym, cls),
-                             dict(rd, paths=ps[:8], delta=d.classes[:30], flags={p: (d.of_new(p, True) or d.of_old(p, True)) for p in ps[:8]},
-                                  expected={p: _brief(want.get(p)) for p in ps[:6]}, by_stream={p: _brief(model.get(p)) for p in ps[:6]}))
+                sym, p = diffs[0]
+                cls = _cls_of(d, p)
+                e_problem[mark] = ("export:stream:%s" % _export_family(plain, d, cls, sym, p),
+                                   "commit %s (%s): its file commands, applied in order to the parent's tree, give path(s) %r %s w.r.t. the "
+                                   "revision's tree (what the revision did to the path: %s)" % (mark.decode(), r.decode(), [x[1] for x in diffs[:4]], sym, cls),
+                                   {"revision": r.decode(), "mark": mark.decode(), "commands": cmds_by_mark[mark], "delta": d.classes[:30],
+                                    "stream_diffs": diffs[:8]})
+            elif fatal:
+                e_problem[mark] = ("export:stream:%s" % fatal[0],
+                                   "commit %s (%s): %s %r (revision did: %s)" % (mark.decode(), r.decode(), fatal[0],
+                                                                                 [n[1] for n in notes if n[0] == fatal[0]][:4], d.classes[:8]),
+                                   {"revision": r.decode(), "mark": mark.decode(), "commands": cmds_by_mark[mark], "delta": d.classes[:30]})
+            if mark in e_problem:
+                ctx.hist("stream differs from git semantics at a commit (attribution aid)")
     # ---- import
     stripped = False
 
     def import_failed(e, d_, what=""):
-        failing = None
         import re
 
+        failing = None
         m = re.search(r"processing commit b':(\d+)'", getattr(e, "stdout", "") or "")
         if m:
             failing = m.group(1).encode()
-        if failing in rejected_marks:
-            ctx.hist("import raised %s on a commit whose commands git would reject too (judged on the export side)" % e.typename)
+        if failing in e_problem:
+            key, msg, det = e_problem[failing]
+            ctx.fail(key, "%s; the importer then raised %s@%s on that commit" % (msg, e.typename, e.where),
+                     dict(detail, importer_error=e.text[:600], **det))
         else:
-            roles = roles_by_mark.get(failing, {})
-            kinds = sorted({x for v in roles.values() for x in v})
+            kinds = sorted({x for v in roles_by_mark.get(failing, {}).values() for x in v})
             ctx.fail("import:raised:%s@%s" % (e.typename, e.where), "%scommit %s (commands: %s): %s" % (what, failing, kinds, e.text[:1200]),
-                     dict(detail, failing_mark=failing and failing.decode(), stream_tail=d_[-1500:].decode("latin-1")))
+                     dict(detail, failing_mark=failing and failing.decode(), commands=cmds_by_mark.get(failing),
+                          stream_tail=d_[-1200:].decode("latin-1")))
         ctx.note(("import-raised", mode), nontrivial=False)
 
     try:
@@ -628,8 +616,6 @@ def _roundtrip(ctx, rng, h, bname, plain, rewrite_tags):
             import_failed(e, data)
             return
     ctx.count("roundtrip")
-    ok = export_ok
-    attributed = not export_ok
     # ---- open the imported side
     try:
         nb = Branch.open(os.path.join(dest, "trunk"))
@@ -669,7 +655,7 @@ def _roundtrip(ctx, rng, h, bname, plain, rewrite_tags):
             elif nb.revno() != br.revno():
                 ok = False
                 ctx.fail("tip:revno-differs", "revno %d vs %d" % (nb.revno(), br.revno()), detail)
-        # ---- importer's duty: the imported tree of every commit is what its commands make of the imported tree of its 'from' parent
+        # ---- attribution aid 2: per commit, is the imported tree what the commands make of the imported tree of the 'from' parent?
         isnaps = {}
 
         def imp_snap(mark):
@@ -677,30 +663,24 @@ def _roundtrip(ctx, rng, h, bname, plain, rewrite_tags):
                 isnaps[mark] = observe.strip_ids(observe.snap_tree(nrepo.revision_tree(marks[mark])))
             return isnaps[mark]
 
+        i_problem = {}
         for mark, frm, merges, fcs, cmd in commits:
-            if mark not in marks or (frm and frm not in marks) or mark in rejected_marks:
+            if mark not in marks or (frm and frm not in marks):
                 continue
             ctx.count("import_commit_checked")
-            base = imp_snap(frm) if frm else {}
-            model, notes = sm.apply_commands(base, fcs)
+            model, notes = sm.apply_commands(imp_snap(frm) if frm else {}, fcs)
             diffs = _diff_maps(sm.prune_empty_dirs(model), sm.prune_empty_dirs(imp_snap(mark)))
             if diffs:
-                ok = False
-                attributed = True
-                roles = roles_by_mark.get(mark, {})
-                groups = {}
-                for sym, p in diffs:
-                    groups.setdefault((_role_of(roles, p), sym), []).append(p)
-                for (role, sym), ps in sorted(groups.items()):
-                    ctx.fail("import:tree:%s" % _import_family(role, sym),
-                             "commit %s: imported tree has path(s) %r %s w.r.t. what the commit's file commands describe (role of the path "
-                             "in the commands: %s)" % (mark.decode(), ps[:4], sym, role),
-                             dict(detail, mark=mark.decode(), paths=ps[:8], commands=[bytes(fc)[:80].decode("latin-1") for fc in fcs][:25],
-                                  by_stream={p: _brief(model.get(p)) for p in ps[:6]}, imported={p: _brief(imp_snap(mark).get(p)) for p in ps[:6]}))
+                sym, p = diffs[0]
+                role = _role_of(roles_by_mark.get(mark, {}), p)
+                i_problem[mark] = ("import:tree:%s" % _import_family(role, sym),
+                                   "commit %s: imported tree has path(s) %r %s w.r.t. what the commit's file commands describe (role of the "
+                                   "path in the commands: %s)" % (mark.decode(), [x[1] for x in diffs[:4]], sym, role),
+                                   {"mark": mark.decode(), "commands": cmds_by_mark.get(mark), "import_diffs": diffs[:8]})
         # ---- the property itself, per revision in export (mark) order
         order = sorted(mapping, key=lambda r: int(revid_to_mark[r]))
         parents = {}
-        tree_reported = False
+        tree_bad = set()
         classes_sig = []
         nmerge = 0
         for r in order:
@@ -748,22 +728,33 @@ def _roundtrip(ctx, rng, h, bname, plain, rewrite_tags):
             ctx.count("symlink_entries", sum(1 for v in a.values() if v[0] == "symlink"))
             ctx.count("exec_entries", sum(1 for v in a.values() if v[2]))
             diffs = _diff_maps(observe.strip_ids(a), observe.strip_ids(bsn))
-            if diffs:
-                ok = False
-                if attributed:
-                    ctx.hist("tree differs end-to-end (attributed above to exporter or importer)")
-                elif not tree_reported:  # later revisions inherit the damage: report the first one only
-                    tree_reported = True
-                    groups = {}
-                    for sym, p in diffs:
-                        groups.setdefault((_cls_of(d, p), sym), []).append(p)
-                    for (cls, sym), ps in sorted(groups.items()):
-                        ctx.fail("tree:%s:%s" % (cls, sym),
-                                 "revision %s (%s): path(s) %r %s after the round trip, although stream and import each looked consistent "
-                                 "(what the revision did to the path: %s)"
-                                 % (r.decode(), "merge" if len(rev.parent_ids) > 1 else "commit", ps[:4], sym, cls),
-                                 dict(rd, paths=ps[:8], delta=d.classes[:30],
-                                      source={p: _brief(a.get(p)) for p in ps[:6]}, imported={p: _brief(bsn.get(p)) for p in ps[:6]}))
+            if not diffs:
+                continue
+            ok = False
+            tree_bad.add(r)
+            if rev.parent_ids and rev.parent_ids[0] in tree_bad:
+                ctx.hist("tree differs, inherited from the left parent (reported there)")
+                continue
+            # this revision is where the damage starts: name the side whose per-commit check disagrees
+            mark = revid_to_mark[r]
+            sym, p = diffs[0]
+            cls = _cls_of(d, p)
+            base_msg = ("revision %s (%s): path(s) %r %s after the round trip (what the revision did to the path: %s)"
+                        % (r.decode(), "merge" if len(rev.parent_ids) > 1 else "commit", [x[1] for x in diffs[:4]], sym, cls))
+            det = dict(rd, paths=[x[1] for x in diffs[:8]], delta=d.classes[:30], commands=cmds_by_mark.get(mark),
+                       source={x[1]: _brief(a.get(x[1])) for x in diffs[:6]}, imported={x[1]: _brief(bsn.get(x[1])) for x in diffs[:6]})
+            if mark in e_problem and mark not in i_problem:
+                key, msg, d2 = e_problem[mark]
+                ctx.fail(key, base_msg + "; exporter side: " + msg, dict(det, **d2))
+            elif mark in i_problem and mark not in e_problem:
+                key, msg, d2 = i_problem[mark]
+                ctx.fail(key, base_msg + "; importer side: " + msg, dict(det, **d2))
+            elif mark in e_problem:
+                key, msg, d2 = e_problem[mark]
+                ctx.fail(key, base_msg + "; exporter side: " + msg + " (the importer does not follow the commands literally either: %s)"
+                         % i_problem[mark][0], dict(det, **d2))
+            else:
+                ctx.fail("tree:%s:%s" % (cls, sym), base_msg + "; stream and import each look consistent for this commit", det)
         # ---- tags
         new_tags = dict(nb.tags.get_tag_dict())
         for t, r in sorted(src_tags.items()):
